@@ -17,7 +17,10 @@ DESUGAR_FNS = ['caret_desugar', 'partial_desugar', 'tilde_desugar', 'hyphen_desu
 # the leaves of the range grammar (src/range.rs), whole functions under the assumed winnow contracts: every Partial the parser produces is
 # read off the text by the reference reader g_partial and is well formed (numbers <= MAX_SAFE_INTEGER, normalised) -- proved, not pinned
 RLEAVES = ['mod:m_winnow', 'mod:m_vspec', 'mod:m_rspec', 'fn:number', 'fn:identifier', 'fn:build', 'fn:pre_release', 'fn:extras', 'fn:Extras::values', 'fn:x_or_asterisk', 'fn:component', 'fn:operation', 'fn:tilde_gt', 'fn:logical_or', 'fn:partial_version']
-DESUGAR = RLEAVES + ['clauses:' + f for f in DESUGAR_FNS] + ['fn:Partial::normalize', 'fn:Version::from@m_desugar', 'fn:Version::from@m_version', 'fn:number_check', 'fn:identifier_classify']
+# the comparator functions as whole functions: the text is read as (operator, partial) by the reference reader and the result satisfies the
+# clause grid of that form (primitive_post / partial_post / tilde_post / caret_post)
+RCOMPARATORS = ['fn:partial', 'fn:caret', 'fn:tilde', 'fn:primitive', 'fn:partial_desugar_whole', 'fn:caret_desugar_whole', 'fn:tilde_desugar_whole', 'fn:primitive_desugar_whole']
+DESUGAR = RLEAVES + RCOMPARATORS + ['clauses:' + f for f in DESUGAR_FNS] + ['fn:Partial::normalize', 'fn:Version::from@m_desugar', 'fn:Version::from@m_version', 'fn:number_check', 'fn:identifier_classify']
 FROM_U64 = ['fn:Version::from@m_version']
 # the representation invariant is ESTABLISHED by everything that builds a Range: the set-operation properties quantify over "ranges obtained
 # from Range::parse or from the operations", so these are obligations of theirs too (not only of C01 / C06)
@@ -27,7 +30,7 @@ WF_EST = RLEAVES + ['clausere:#wf$', 'clausere:#small$', 'fn:intersect_all', 'fn
 VGRAMMAR = ['mod:m_winnow', 'mod:m_vspec', 'fn:number', 'fn:version_core', 'fn:identifier', 'fn:build', 'fn:pre_release', 'fn:extras', 'fn:version', 'fn:Extras::values']
 WINNOW = 'A15: the contracts of the winnow 0.6 combinators the grammar uses (contracts/winnow_shim.rs, written from winnow\'s documentation and source; nothing of winnow is verified): sequence tuples, alt, opt, preceded, terminated, separated, map, try_map, take, context, literal, take_while, space0, digit1, eof, AsChar::is_alphanum; error payloads, Cut/Incomplete and the input position after a failed parse are not modelled'
 FMT = 'A16: the `write!` model of contracts/fmt_spec.rs: write!(f, "p0{}p1", a) appends p0 + disp(a) + p1 to the formatter when it returns Ok; `{}` prints a u64 as its decimal digits (dec_text: non-empty, all digits, reads back to the number), a String as its characters, a value of one of the crate\'s types as what its own Display impl (lifted, R9) is proved to write; R17: `for (i, x) in e.iter().enumerate()` is verified as a counter next to `for x in e.iter()`; a Vec holds at most usize::MAX elements'
-TEXT_SHELL = 'the upper layers of the range grammar (`primitive`/`partial`/`tilde`/`caret`/`hyphen` as whole functions, `simple`, `garbage`, `range`, `bound_sets`, `range_set`, Range::parse) are not under contract: the property is decided at AST level for every operator / Partial value; the leaves (`operation`, `component`, `partial_version`, `tilde_gt`, `logical_or`, `number`, `extras`) ARE under contract over ' + WINNOW
+TEXT_SHELL = 'the upper layers of the range grammar (`hyphen` as a whole function, `simple`, `garbage`, `range`, `bound_sets`, `range_set`, Range::parse: how comparators are separated, terminated, skipped as garbage and joined) are not under contract: the property is decided at AST level for every operator / Partial value; the leaves (`operation`, `component`, `partial_version`, `tilde_gt`, `logical_or`, `number`, `extras`) and the comparator functions `primitive`, `partial`, `tilde`, `caret` (text -> (operator, partial) -> interval) ARE under contract over ' + WINNOW
 STD = 'std axioms A1-A12 of DESIGN.md 2.4 (Box, cmp::max/min for a lawful Ord, Vec/String ordering, derived impls, Clone, iterator idioms, Hash feed) as listed in coverage.trusted_base'
 
 PROPS = {
